@@ -225,8 +225,8 @@ func c17NodeRun(t *testing.T, cs c17NodeCase, skip map[int]bool) (res c17NodeRes
 							i, post.term, post.leader, quiet+voteAfter*(due-started), hbMs, voteAfter, due, started, staleSince)
 					}
 					if post.term > pre.term {
-						// an election of its own restarts the node's timeout; the harness count restarts with it only if
-						// the node is not ahead of it (one-sided oracle)
+						// one-sided: a node that is ahead of the harness count (it stood earlier than it had to) restarted
+						// its own timeout at that election, i.e. not later than now: the harness count restarts now
 						if started > due {
 							started, due, quiet = 0, 0, 0
 						}
